@@ -60,8 +60,11 @@ class V(steps.Visitor):
 
 def run(tier, seed):
     texts, heavy = steps.start_texts(tier, "eqn")
-    depth = 2 if tier == "quick" else 3
+    # quick: one step from every start equation, two steps from the reduced set; thorough: three steps from all
+    depth = 1 if tier == "quick" else 3
     acc = steps.run(V, texts, depth, "eqn", seed, heavy)
+    if tier == "quick":
+        acc.merge(steps.run(V, texts[:heavy] + steps.small_texts("eqn"), 2, "eqn", seed, 0, key="small2"))
     if tier == "quick":
         # ancestor chains of length two around the moved term: one step each is enough (the decision is local)
         deep_ctx = X.contexts(2, ["2", "x", "3x"])
@@ -73,7 +76,8 @@ def run(tier, seed):
         "transitions": acc.n["transitions"],
         "traces_validated_against_impl": acc.n["transitions"],
         "exhaustive": True,
-        "bound": {"start_texts": len(texts), "closure_depth": depth, "inplace_start_texts": len(small)},
+        "bound": {"start_texts": len(texts), "closure_depth": depth, "closure_depth_2_start_texts": len(steps.small_texts("eqn")),
+                  "inplace_start_texts": len(small)},
         "inplace_transitions": acc.n["inplace_transitions"],
         "decided_by_degree_bound": acc.n["decided"],
         "tested_only": acc.n["tested_only"],
